@@ -17,116 +17,7 @@ use std::collections::{BTreeMap, BTreeSet};
 use std::path::{Path, PathBuf};
 use vcore::report::*;
 
-#[derive(Clone, Debug)]
-pub struct Case {
-    /// group/position/name
-    pub label: String,
-    pub text: String,
-}
-
-pub const KEYWORDS: &[&str] = &[
-    "as", "async", "await", "break", "const", "continue", "crate", "dyn", "else", "enum", "extern", "false", "fn", "for", "if", "impl", "in", "let", "loop", "match", "mod", "move", "mut", "pub", "ref", "return", "self", "static", "struct", "super", "trait", "true", "type",
-    "unsafe", "use", "where", "while", "abstract", "become", "box", "do", "final", "macro", "override", "priv", "typeof", "unsized", "virtual", "yield", "try", "gen", "union", "raw",
-];
-
-/// lowercase names that are no keywords but meet names the generated code uses itself
-pub const RISKY_LOWER: &[&str] = &["value", "reader", "writer", "default", "new", "read", "write", "clone", "fmt", "eq", "variant", "variants", "index", "min", "max", "len", "into", "from", "none", "some", "ok", "err", "vec", "string", "u8", "i64", "bool", "str", "main", "std", "core", "asn1rs", "prelude", "r", "tag", "constants", "inner", "other", "result", "option"];
-
-/// type names: capitalised keywords and names of the Rust prelude / of asn1rs::prelude that generated code relies on
-pub const TYPE_NAMES: &[&str] = &[
-    "Self", "Box", "Option", "Vec", "String", "Some", "None", "Ok", "Err", "Result", "Default", "Clone", "Copy", "Debug", "PartialEq", "Eq", "Hash", "PartialOrd", "Ord", "Sized", "Send", "Sync", "Drop", "Fn", "Iterator", "From", "Into", "ToString", "ToOwned", "AsRef", "BitVec", "Reader", "Writer",
-    "Readable", "Writable", "Error", "Utf8String", "Integer", "Boolean", "Constraint", "Null", "Sequence", "Choice", "Enumerated", "Scope", "Type", "Struct", "Enum", "Impl", "Trait", "Mod", "Crate", "Super", "Static", "Const", "Async", "Dyn", "Tag", "Bool", "Str", "U8", "I64", "Usize", "Std", "Core", "Asn1rs", "Prelude", "Main", "Test",
-];
-
-fn module(body: &str) -> String {
-    format!("Gen DEFINITIONS AUTOMATIC TAGS ::= BEGIN\n{body}\nEND\n")
-}
-
-fn keyword_cases(names: &[&str], group: &str, out: &mut Vec<Case>) {
-    for n in names {
-        let mut p = |pos: &str, body: String| out.push(Case { label: format!("{group}/{pos}/{n}"), text: module(&body) });
-        p("sequence-component", format!("T ::= SEQUENCE {{ {n} INTEGER (0..7), z BOOLEAN }}"));
-        p("sequence-optional-component", format!("T ::= SEQUENCE {{ z BOOLEAN, {n} UTF8String OPTIONAL }}"));
-        p("set-component", format!("T ::= SET {{ {n} INTEGER (0..7), z BOOLEAN }}"));
-        p("choice-alternative", format!("T ::= CHOICE {{ {n} INTEGER (0..7), z BOOLEAN }}"));
-        p("enumerated-item", format!("T ::= ENUMERATED {{ {n}, zz }}"));
-        p("named-number", format!("T ::= INTEGER {{ {n}(1) }} (0..7)"));
-        p("named-number-of-component", format!("T ::= SEQUENCE {{ a INTEGER {{ {n}(1) }} (0..7) }}"));
-        p("named-bit", format!("T ::= BIT STRING {{ {n}(1) }} (SIZE(8))"));
-        p("value-reference", format!("{n} INTEGER ::= 5\nT ::= INTEGER (0..{n})"));
-        p("inline-sequence-component", format!("T ::= SEQUENCE {{ {n} SEQUENCE {{ b BOOLEAN }} }}"));
-        p("inline-enumerated-component", format!("T ::= SEQUENCE {{ {n} ENUMERATED {{ x, y }} }}"));
-        p("default-enumerated-item", format!("E ::= ENUMERATED {{ {n}, zz }}\nT ::= SEQUENCE {{ a E DEFAULT {n} }}"));
-    }
-}
-
-fn type_name_cases(out: &mut Vec<Case>) {
-    for n in TYPE_NAMES {
-        let mut p = |pos: &str, body: String| out.push(Case { label: format!("type-name/{pos}/{n}"), text: module(&body) });
-        p("sequence", format!("{n} ::= SEQUENCE {{ a INTEGER (0..7) OPTIONAL, b UTF8String, c SEQUENCE OF BOOLEAN, d BIT STRING, e OCTET STRING }}\nT ::= SEQUENCE {{ x {n}, y {n} OPTIONAL }}"));
-        p("integer", format!("{n} ::= INTEGER (0..7)\nT ::= SEQUENCE {{ x {n}, y SEQUENCE OF {n}, z UTF8String OPTIONAL }}"));
-        p("enumerated", format!("{n} ::= ENUMERATED {{ a, b }}\nT ::= SEQUENCE {{ x {n} DEFAULT b, z UTF8String OPTIONAL }}"));
-        p("choice", format!("{n} ::= CHOICE {{ a BOOLEAN, b NULL, c UTF8String }}\nT ::= CHOICE {{ x {n}, y SEQUENCE OF {n} }}"));
-        p("sequence-of", format!("{n} ::= SEQUENCE OF INTEGER (0..7)\nT ::= SEQUENCE {{ x {n}, z OCTET STRING OPTIONAL }}"));
-    }
-}
-
-fn collision_cases(out: &mut Vec<Case>) {
-    let mut p = |name: &str, body: &str| out.push(Case { label: format!("collision/{name}"), text: module(body) });
-    // distinct ASN.1 identifiers that meet in one Rust identifier
-    p("components/ab-c+abC", "T ::= SEQUENCE { ab-c BOOLEAN, abC BOOLEAN }");
-    p("components/a-b+a-B", "T ::= SEQUENCE { a-b BOOLEAN, a-B BOOLEAN }");
-    p("components/abc+aBC", "T ::= SEQUENCE { abc BOOLEAN, aBC BOOLEAN }");
-    p("components/a1+a-1", "T ::= SEQUENCE { a1 BOOLEAN, a-1 BOOLEAN }");
-    p("set-components/ab-c+abC", "T ::= SET { ab-c BOOLEAN, abC BOOLEAN }");
-    p("alternatives/ab-c+abC", "T ::= CHOICE { ab-c BOOLEAN, abC NULL }");
-    p("alternatives/abc+aBC", "T ::= CHOICE { abc BOOLEAN, aBC NULL }");
-    p("alternatives/a-b+a-B", "T ::= CHOICE { a-b BOOLEAN, a-B NULL }");
-    p("enumerated-items/ab-c+abC", "T ::= ENUMERATED { ab-c, abC }");
-    p("enumerated-items/a-b+a-B", "T ::= ENUMERATED { a-b, a-B }");
-    p("enumerated-items/abc+aBC", "T ::= ENUMERATED { abc, aBC }");
-    p("types/Ab-c+AbC", "Ab-c ::= BOOLEAN\nAbC ::= NULL\nT ::= SEQUENCE { x Ab-c, y AbC }");
-    p("types/AB+Ab", "AB ::= BOOLEAN\nAb ::= NULL\nT ::= SEQUENCE { x AB, y Ab }");
-    p("types/A-B+AB", "A-B ::= BOOLEAN\nAB ::= NULL\nT ::= SEQUENCE { x A-B, y AB }");
-    p("types/ABC+Abc", "ABC ::= BOOLEAN\nAbc ::= NULL\nT ::= SEQUENCE { x ABC, y Abc }");
-    p("type-vs-inline-sequence", "T ::= SEQUENCE { a SEQUENCE { b BOOLEAN } }\nTA ::= BOOLEAN");
-    p("type-vs-inline-enumerated", "T ::= SEQUENCE { a ENUMERATED { x, y } }\nTA ::= BOOLEAN");
-    p("type-vs-inline-choice", "T ::= SEQUENCE { a CHOICE { x NULL, y BOOLEAN } }\nTA ::= BOOLEAN");
-    p("type-vs-inline-of-choice", "T ::= CHOICE { a SEQUENCE { b BOOLEAN }, c NULL }\nTA ::= BOOLEAN");
-    p("inline-vs-inline", "T ::= SEQUENCE { a-b SEQUENCE { x BOOLEAN } }\nTA ::= SEQUENCE { b SEQUENCE { y BOOLEAN } }");
-    p("inline-list-element-enumerated", "T ::= SEQUENCE OF ENUMERATED { a, b }");
-    p("inline-list-element-sequence", "T ::= SEQUENCE OF SEQUENCE { a BOOLEAN }");
-    p("inline-list-element-choice", "T ::= SEQUENCE OF CHOICE { a BOOLEAN, b NULL }");
-    p("inline-list-element-of-component", "T ::= SEQUENCE { l SEQUENCE OF ENUMERATED { a, b }, m SEQUENCE OF SEQUENCE { a BOOLEAN } }");
-    p("inline-list-in-list", "T ::= SEQUENCE OF SEQUENCE OF ENUMERATED { a, b }");
-    p("inline-set-of-element-enumerated", "T ::= SET OF ENUMERATED { a, b }");
-    // names of generated accessors
-    p("accessor/a+a-mut", "T ::= SEQUENCE { a INTEGER (0..3), a-mut INTEGER (0..3) }");
-    p("accessor/a+set-a", "T ::= SEQUENCE { a INTEGER (0..3), set-a INTEGER (0..3) }");
-    p("accessor/a+a-min", "T ::= SEQUENCE { a INTEGER (0..3), a-min INTEGER (0..3) }");
-    p("accessor/a+a-max", "T ::= SEQUENCE { a INTEGER (0..3), a-max INTEGER (0..3) }");
-    p("accessor/value-min", "T ::= SEQUENCE { value INTEGER (0..3), value-min BOOLEAN }");
-    p("accessor/choice-a+is-a", "T ::= CHOICE { a BOOLEAN, is-a NULL }");
-    // constants of named numbers / bits
-    p("constants/a:b-c+a-b:c", "T ::= SEQUENCE { a INTEGER { b-c(1) } (0..3), a-b INTEGER { c(2) } (0..3) }");
-    p("constants/named-numbers-b-c+bC", "T ::= INTEGER { b-c(1), bC(2) } (0..3)");
-    p("constants/named-bits-b-c+bC", "T ::= BIT STRING { b-c(1), bC(2) } (SIZE(8))");
-    p("constants/named-number-min", "T ::= INTEGER { min(1), max(2) } (0..3)");
-    p("constants/component-named-number-min", "T ::= SEQUENCE { a INTEGER { min(1), max(2) } (0..3) }");
-    p("value-references/ab-c+abC", "ab-c INTEGER ::= 1\nabC INTEGER ::= 2\nT ::= INTEGER (0..7)");
-    p("value-references/ab-c+ab-C", "ab-c INTEGER ::= 1\nab-C INTEGER ::= 2\nT ::= INTEGER (0..7)");
-    // a component named like its own type, a type named like the module
-    p("component-named-like-type", "T ::= SEQUENCE { t T2 }\nT2 ::= BOOLEAN");
-    p("type-named-like-module", "Gen ::= SEQUENCE { gen BOOLEAN }");
-    p("recursive-through-list", "T ::= SEQUENCE { children SEQUENCE OF T }");
-    p("recursive-through-optional", "T ::= SEQUENCE { next T OPTIONAL }");
-    p("recursive-through-choice", "T ::= CHOICE { leaf NULL, node SEQUENCE OF T }");
-    // separators and digits
-    p("names/digits", "T1 ::= SEQUENCE { a1 BOOLEAN, a2b BOOLEAN, a-2 BOOLEAN }\nT ::= SEQUENCE { x T1 }");
-    p("names/long-hyphenated", "T ::= SEQUENCE { this-is-a-very-long-hyphenated-component-name BOOLEAN, thisIsCamelCase BOOLEAN, mixed-camelCase-name BOOLEAN }");
-    p("names/upper-run", "T ::= SEQUENCE { httpURL BOOLEAN, xMLParser BOOLEAN, iD BOOLEAN }\nHTTPRequest ::= BOOLEAN\nXMLHttpRequest ::= NULL");
-    p("names/single-letter", "A ::= BOOLEAN\nT ::= SEQUENCE { a A, b BOOLEAN }");
-}
+pub use crate::pool::*;
 
 fn default_and_value_cases(out: &mut Vec<Case>) {
     let mut p = |name: String, body: String| out.push(Case { label: format!("literal/{name}"), text: module(&body) });
